@@ -495,6 +495,14 @@ def herd_feed_per_round(repo, tier, seed):
 
 CONTRACTS = [MeatProduced(), MilkHerd(), PerHeadYields(), MeatAfterWaste(), MonthlyMeat(1), MonthlyMeat(3), MeatFromFeedResults(), Milk(True),
              Milk(False), FeedUsedHandedOn(), YieldsOfEveryRound(False), YieldsOfEveryRound(True), RoundConversion()] + ([MonthlyMeat(6), MonthlyMeat(12)] if os.environ.get("VERIF_TIER") == "thorough" else [])
+def _c07():
+    from contracts import C07
+    from contracts.common import relabelled
+    return relabelled(C07.CONTRACTS, "C05")
+
+
+# "the herds never eat more grass than is available": C07's feeding contracts, re-run under this property
+CONTRACTS += _c07()
 EXTRA = [herd_feed_per_round]
 TRUSTED = [
     "machine floats treated as mathematical reals",
